@@ -47,22 +47,16 @@ Proof.
   unfold pd_replace. cbn [dtv_of v_tz]. rewrite <- g_build_pd_create. destruct (g_build (g_tz x) _ f false); reflexivity.
 Qed.
 
-(* DateTime.instance(dt, tz=None) on a value carrying a pendulum timezone object, or a naive one whose fold is 0 *)
+(* DateTime.instance(dt, tz=None): a value carrying a pendulum timezone object (pid = its identity), or a naive value of either fold (the fold is kept) *)
 Theorem glue_instance_is_pd_instance tzo W f pid : wall_in_range W = true ->
-  match tzo with Some t => pid = gz_id t | None => f = false end ->
+  match tzo with Some t => pid = gz_id t | None => True end ->
   rmap dtv_of (glue_DateTime_instance (dt_of W f tzo) None) = pd_instance (dtv_of (dt_of W f tzo)) pid.
 Proof.
   intros R H. rewrite glue_instance_spec by exact R. rewrite dtv_of_dt_of. unfold pd_instance. cbn [v_tz v_wall v_fold].
   destruct tzo as [t|]; cbn [opt_tz_or option_map].
   - subst pid. rewrite (g_build_pd_create (Some t)). reflexivity.
-  - subst f. cbn [g_build rmap]. rewrite dtv_of_dt_of. reflexivity.
+  - cbn [g_build rmap]. rewrite dtv_of_dt_of. reflexivity.
 Qed.
-
-(* ... and the hand model DIFFERS from the code on a naive value whose fold is 1 (instance(dt, tz=None), i.e. DateTime.combine(date, time(fold=1)) with tzinfo=None):
-   the code keeps the fold (create(..., tz=None, fold=dt.fold)), pd_instance answers fold 0 *)
-Theorem instance_naive_fold1_model_differs W pid : wall_in_range W = true ->
-  rmap dtv_of (glue_DateTime_instance (dt_of W true None) None) = Ok (mkdtv W true None) /\ pd_instance (mkdtv W true None) pid = Ok (mkdtv W false None).
-Proof. intros R. rewrite glue_instance_spec by exact R. split; reflexivity. Qed.
 
 (* DateTime.astimezone(tz) on an aware value: the translated body (super().astimezone(tz) then the rebuilt DateTime) gives the value pd_astimezone gives *)
 Theorem glue_astimezone_is_pd_astimezone t1 tz W f isp : gtz_ok t1 -> gtz_ok tz -> same_obj t1 tz -> tz_ok (tzi_of tz) -> wall_in_range W = true ->
@@ -95,6 +89,5 @@ Qed.
 Print Assumptions glue_create_is_pd_create.
 Print Assumptions glue_replace_is_pd_replace.
 Print Assumptions glue_instance_is_pd_instance.
-Print Assumptions instance_naive_fold1_model_differs.
 Print Assumptions glue_astimezone_is_pd_astimezone.
 Print Assumptions glue_fixed_is_model.
